@@ -120,6 +120,7 @@ type InputEvent struct {
 
 // Trace is everything observed in one run.
 type Trace struct {
+	Spin        bool // the case exceeded its real-time budget twice (a goroutine spins); only Deadlock is set then
 	NewErr      string
 	Deadlock    string
 	Leaked      []string
